@@ -24,7 +24,7 @@ func init() {
 
 var c16Singles = []rune{0, 1, 9, 10, 13, 32, '!', '-', '0', '5', '9', 'A', 'B', 'Z', '[', '\\', ']', '^', '_', 'a', 'b', 'k', 's', 'z', '{', 0x7f, 0x80,
 	0xA0, 0xB5, 0xDF, 0xE9, 0xFF, 0x100, 0x130, 0x131, 0x17F, 0x1C5, 0x24F, 0x250, 0x370, 0x3B1, 0x3C2, 0x3C3, 0x436, 0x1E9E, 0x2000, 0x200C, 0x200D, 0x2028, 0x212A, 0x3000,
-	0xD7FF, 0xE000, 0xFEFF, 0xFFFD, 0xFFFE, 0xFFFF, 0x10000, 0x10001, 0x1F600, 0xE0001, 0x10FFFE, 0x10FFFF}
+	0xD7FF, 0xD800, 0xD801, 0xDBFF, 0xDC00, 0xDFFE, 0xDFFF, 0xE000, 0xFEFF, 0xFFFD, 0xFFFE, 0xFFFF, 0x10000, 0x10001, 0x1F600, 0xE0001, 0x10FFFE, 0x10FFFF}
 
 var c16Props = []string{"L", "Lu", "Ll", "Lt", "Lm", "Lo", "M", "Mn", "N", "Nd", "Nl", "No", "P", "Pc", "Pd", "S", "Sm", "Sc", "Z", "Zs", "C", "Cc", "Cf", "Co",
 	"Greek", "Cyrillic", "Latin", "Han", "Arabic", "Hiragana"}
@@ -84,18 +84,13 @@ func (g *c16Gen) item() gen.ClassItem {
 			return gen.ClassItem{T: "range", Lo: a, Hi: b, Sp: g.rng.Intn(32)}
 		case 6, 7:
 			names := "dDwWsS"
-			if g.ic && (g.re2 || g.ecma) {
-				names = "dws" // negated dialect shorthands are ranges with non-ASCII endpoints
-			}
 			return gen.ClassItem{T: "esc", Name: string(names[g.rng.Intn(len(names))])}
 		case 8, 9:
 			if g.ecma {
 				continue
 			}
 			name := c16Props[g.rng.Intn(len(c16Props))]
-			if g.ic && (name == "Lu" || name == "Ll" || name == "Lt") {
-				continue
-			}
+
 			return gen.ClassItem{T: "prop", Name: name, Neg: g.rng.Intn(3) == 0}
 		case 10:
 			if g.re2 {
@@ -214,6 +209,59 @@ type c16Case struct {
 	reL    *regexp2.Regexp // [...]+
 	reP    *regexp2.Regexp // x*[...]
 	reN    *regexp2.Regexp // \A[...]\z without ASCII bitmaps
+
+	// a near-twin of the class placed next to it in one pattern: the twin differs by a subtraction
+	// (added or removed) or by a surrogate bound, so that anything that identifies the two -
+	// coalescing of adjacent equal sets, the writer's set table - shows
+	node2    *gen.Node
+	src2     string
+	reAB     *regexp2.Regexp // \A[class][twin]\z
+	reBA     *regexp2.Regexp // \A[twin][class]\z
+	adjProbe []rune
+}
+
+// twinOf derives the near-twin; nil when the class offers nothing to vary.
+func twinOf(node *gen.Node) (*gen.Node, []rune) {
+	t := node.Clone()
+	// a surrogate bound moved to another surrogate
+	for i, it := range t.Items {
+		for _, e := range []*rune{&t.Items[i].Lo, &t.Items[i].Hi} {
+			if *e >= 0xD800 && *e <= 0xDFFF && (it.T == "r" || it.T == "range") {
+				old := *e
+				nw := 0xD800 + (old-0xD800+0x3FF)%0x800
+				if it.T == "r" {
+					t.Items[i].Lo, t.Items[i].Hi = nw, 0
+				} else if e == &t.Items[i].Lo && nw <= t.Items[i].Hi || e == &t.Items[i].Hi && nw >= t.Items[i].Lo {
+					*e = nw
+				} else {
+					continue
+				}
+				return t, []rune{old, nw, old + 1, nw - 1}
+			}
+		}
+	}
+	if t.Sub != nil {
+		// the subtraction removed
+		var probe []rune
+		for _, it := range t.Sub.Items {
+			if it.T == "r" || it.T == "range" {
+				probe = append(probe, it.Lo)
+			}
+		}
+		t.Sub = nil
+		if len(probe) == 0 {
+			return nil, nil
+		}
+		return t, probe
+	}
+	// a subtraction of one member added
+	for _, it := range t.Items {
+		if it.T == "r" || it.T == "range" {
+			t.Sub = &gen.Node{K: gen.KClass, Items: []gen.ClassItem{{T: "r", Lo: it.Lo, Sp: 3}}}
+			return t, []rune{it.Lo}
+		}
+	}
+	return nil, nil
 }
 
 func buildC16(node *gen.Node, opts int) (*c16Case, error) {
@@ -262,6 +310,21 @@ func buildC16(node *gen.Node, opts int) (*c16Case, error) {
 	if c.reA == nil || c.reL == nil || c.reP == nil || c.reN == nil {
 		return c, fmt.Errorf("a use of the class does not compile")
 	}
+	if !c.d.ECMA {
+		if t, probe := twinOf(node); t != nil {
+			gen.Annotate(t, envOf(opts))
+			if classHasSurrogate(t) {
+				forceHexSpelling(t)
+			}
+			c.node2, c.adjProbe = t, probe
+			c.src2 = gen.Print(t, gen.PrintOpts{})
+			c.reAB = comp(`\A`+c.src+c.src2+`\z`, 0)
+			c.reBA = comp(`\A`+c.src2+c.src+`\z`, 0)
+			if c.reAB == nil || c.reBA == nil {
+				c.node2 = nil
+			}
+		}
+	}
 	return c, nil
 }
 
@@ -301,6 +364,21 @@ func (c *c16Case) check(r rune, paths func(string)) string {
 		}
 		if got != want {
 			return bad("MatchRunes of "+p.name, got)
+		}
+	}
+	if c.node2 != nil {
+		for _, w := range append([]rune{r}, c.adjProbe...) {
+			if w < 0 || w > unicode.MaxRune {
+				continue
+			}
+			w2 := ref.ClassMatch(c.node2, w, c.ic, c.d)
+			paths("match:adjacent-twin")
+			if got, err := c.reAB.MatchRunes([]rune{r, w}); err == nil && got != (want && w2) {
+				return fmt.Sprintf("MatchRunes of \\A%s%s\\z on U+%04X U+%04X says %v; set algebra: first class %v, second class %v", c.src, c.src2, r, w, got, want, w2)
+			}
+			if got, err := c.reBA.MatchRunes([]rune{w, r}); err == nil && got != (want && w2) {
+				return fmt.Sprintf("MatchRunes of \\A%s%s\\z on U+%04X U+%04X says %v; set algebra: first class %v, second class %v", c.src2, c.src, w, r, got, w2, want)
+			}
 		}
 	}
 	return ""
@@ -366,7 +444,11 @@ func runC16(r *core.Run) int {
 		g := &c16Gen{rng: rng, ic: opts&int(regexp2.IgnoreCase) != 0, ecma: opts&int(regexp2.ECMAScript) != 0, re2: opts&int(regexp2.RE2) != 0}
 		node := g.class(2)
 		if classHasSurrogate(node) {
-			return
+			if g.ecma || g.ic {
+				return
+			}
+			forceHexSpelling(node) // a surrogate cannot be spelled raw in a Go string
+			l.Count("classes_with_surrogate_bounds", 1)
 		}
 		if g.ecma {
 			forceHexSpelling(node) // \x{..} is not ECMAScript syntax; use plain spellings
